@@ -108,6 +108,8 @@ class Catalog:
     def families(self, sw):
         a = [sw.randint(2, 3) for _ in range(3)]
         b = [sw.randint(2, 3) for _ in range(sw.choice([2, 3]))]
+        if sw.random() < 0.3:
+            b[sw.randrange(len(b))] = 1  # a singleton mode
         if b == a:
             b[0] = 5 - b[0]
         return [a, b]
@@ -183,7 +185,11 @@ class Catalog:
                 return None
             recv = g.choice(ids)
         ctx = GenCtx(self, g, heap)
-        out = spec.gen(ctx, recv)
+        try:
+            out = spec.gen(ctx, recv)
+        except (ValueError, IndexError):
+            # the generator has no request of this kind for the present heap (e.g. a 1-element tensor)
+            return None
         if out is None:
             return None
         step = _plain(dict(out))
